@@ -372,8 +372,12 @@ func (r *apiReplay) requirements(i int, req *ReqJ) {
 			}
 		case "evicted":
 			r.violate("honest-node-evicted", "an honest node finds itself evicted: "+o.err.Error(), i, map[string]any{"node": p})
-		case "bug", "sharecheck", "other":
+		case "bug", "sharecheck":
+			// "BUG: ..." / "share do not correspond to public polynomial": the node's own bookkeeping is inconsistent
 			r.violate("honest-node-internal-error", "an honest node fails with an internal error: "+o.err.Error(), i, map[string]any{"node": p})
+		case "other":
+			// an error the model does not know is not by itself against the property: reported as drift
+			r.driftf("unknown-error-class", i, p, "known error class", o.err.Error())
 		}
 	}
 	if req.AllHonest {
